@@ -646,7 +646,10 @@ def c19(rep, W, ctx, rule="C19"):
             continue
         rep.ob(rule + ".ENC", (k, "lookup+write-encoders"), set(c_["lookup"]) <= set(b_["lookup"]) | set(b_["write"]) and set(c_["write"]) <= set(b_["write"]) | set(b_["lookup"]),
                "column %s: current write %s lookup %s; pinned write %s lookup %s" % (k, c_["write"], c_["lookup"], b_["write"], b_["lookup"]))
-        rep.ob(rule + ".ENC", (k, "read-decoder"), set(c_["read"]) <= set(b_["read"]),
+        # a column the pinned release only ever WROTE through the id encoder (never NULL, always the hyphenated text) may be
+        # read back through the matching id decoder (checked as a pair by uuid/encoder + uuid/decoder above)
+        paired = {"StoredUuid"} if b_["write"] and all(w_ == "StoredUuid:StoredUuid" for w_ in b_["write"]) else set()
+        rep.ob(rule + ".ENC", (k, "read-decoder"), set(c_["read"]) <= set(b_["read"]) | paired,
                "column %s is read as %s; the pinned release read it as %s (a decoder the old data was never read with needs its own argument)" % (k, c_["read"], b_["read"]))
     # NULLS: snapshot columns may be NULL in old databases
     for col in ("clients.snapshot_version_id", "clients.snapshot_timestamp", "clients.versions_since_snapshot"):
